@@ -89,6 +89,7 @@ def graphs(draw, tier="quick"):
         "t": perm[t],
         "with_cost": draw(st.booleans()),
         "all_keys": draw(st.booleans()),
+        "edit": draw(st.one_of(st.none(), st.tuples(st.integers(0, n - 1), st.integers(0, n - 1), st.integers(1, 4)).map(list))),
     }
 
 
@@ -134,13 +135,27 @@ def run(desc, ctx):
     for u, v, c in arcs:
         graph.setdefault(L[u], []).append((L[v], c, 7) if desc["with_cost"] else (L[v], c))
     res = ctx.call(max_flow, graph, L[s], L[t])
+    judge(desc, ctx, n, arcs, s, t, L, res, first=True)
+    edit = desc.get("edit")
+    if edit and edit[0] != edit[1] and edit[0] < n and edit[1] < n:
+        # a second call on the SAME graph object after the caller edited it (stale caches keyed on object identity)
+        u, v, c = edit
+        graph.setdefault(L[u], []).append((L[v], c, 7) if desc["with_cost"] else (L[v], c))
+        ctx.label("second-call-after-edit")
+        res2 = ctx.call(max_flow, graph, L[s], L[t])
+        judge(desc, ctx, n, arcs + [(u, v, c)], s, t, L, res2, first=False)
 
+
+def judge(desc, ctx, n, arcs, s, t, L, res, first):
+    sch = desc["scheme"]
+    tag = "flow" if first else "flow@second-call"
     want = F.max_flow_value(n, arcs, s, t)
     pooled = {}
     for u, v, c in arcs:
         pooled[(u, v)] = pooled.get((u, v), 0) + c
     pairs = set(pooled)
-    ctx.label(desc["family"], f"labels-{sch}")
+    if first:
+        ctx.label(desc["family"], f"labels-{sch}")
     par = len(pairs) < len(arcs)
     anti = any((v, u) in pairs for u, v in pairs)
     into_s = any(v == s for u, v in pairs)
@@ -150,11 +165,12 @@ def run(desc, ctx):
     ctx.label(needs_cancel and "needs-cancellation", want == 0 and "value-0")
     ctx.size("n", n)
     ctx.size("value", want)
-    ctx.nontrivial(want >= 1 and (needs_cancel or par or anti or into_s or out_t))
+    if first:
+        ctx.nontrivial(want >= 1 and (needs_cancel or par or anti or into_s or out_t))
 
     flows = res.solution
     if not isinstance(flows, dict):
-        raise Violation("flow:not-a-dict", repr(flows)[:200])
+        raise Violation(tag + ":not-a-dict", repr(flows)[:200])
     idx = {}
     for i in range(n):
         idx[L[i]] = i
@@ -163,13 +179,13 @@ def run(desc, ctx):
         try:
             u, v = idx[key[0]], idx[key[1]]
         except Exception:
-            raise Violation("flow:unknown-arc", repr(key))
+            raise Violation(tag + ":unknown-arc", repr(key))
         if isinstance(val, bool) or not isinstance(val, int) and not (isinstance(val, float) and val == int(val)):
-            raise Violation("flow:non-integral", {"arc": [u, v], "f": repr(val)})
+            raise Violation(tag + ":non-integral", {"arc": [u, v], "f": repr(val)})
         if val <= 0:
-            raise Violation("flow:non-positive-entry", {"arc": [u, v], "f": val})
+            raise Violation(tag + ":non-positive-entry", {"arc": [u, v], "f": val})
         if val > pooled.get((u, v), 0):
-            raise Violation("flow:capacity", {"arc": [u, v], "f": val, "cap": pooled.get((u, v), 0)})
+            raise Violation(tag + ":capacity", {"arc": [u, v], "f": val, "cap": pooled.get((u, v), 0)})
         f[(u, v)] = val
     net = [0] * n
     for (u, v), x in f.items():
@@ -177,13 +193,13 @@ def run(desc, ctx):
         net[v] += x
     for v in range(n):
         if v not in (s, t) and net[v] != 0:
-            raise Violation("flow:conservation", {"node": v, "net": net[v]})
+            raise Violation(tag + ":conservation", {"node": v, "net": net[v]})
     if net[t] != res.objective:
-        raise Violation("flow:objective-vs-sink-inflow", {"net_t": net[t], "objective": res.objective})
+        raise Violation(tag + ":objective-vs-sink-inflow", {"net_t": net[t], "objective": res.objective})
     if t in F.residual_reachable(n, arcs, f, s):
-        raise Violation("flow:augmenting-path-remains", {"objective": res.objective, "max": want})
+        raise Violation(tag + ":augmenting-path-remains", {"objective": res.objective, "max": want})
     if res.objective != want:
-        raise Violation("flow:value-not-maximum", {"objective": res.objective, "max": want})
+        raise Violation(tag + ":value-not-maximum", {"objective": res.objective, "max": want})
 
 
 SUBS = [Sub("max_flow", run, strategy=lambda tier: graphs(tier), quick=3000, thorough=12000, workers_quick=4)]
